@@ -34,7 +34,7 @@ class Calls:
                      'is_none', 'hashable', 'callraises', 'call', 'fresh_obj', 'is_int_key', 'int_key', 'ite', 'attr',
                      'has_attr', 'catches', 'exc_is', 'iff', 'dynattr', 'truthy', 'key_at', 'idx_of', 'old', 'is_fresh',
                      'seq_of', 'card', 'same_elements', 'typeof', 'callv', 'callvraises', 'isinst_dyn', 'lt', 'unhashable_any',
-                     'mhas', 'mget', 'shas', 'without_key', 're_compile_raises', 're_compile', 'as_map', 'as_seq', 'as_set', 'sat', 'slen', 'mlen', 'methraises', 'methcall', 'gen_of', 'nth_where', 'count_where', 'ghost', 'zlen', 'isfinite', 'ret_make_converter', 'ret_into_data', 'ret', 'clsref', 'id_of', 'fnref', 'called', 'hash_of', 'forall_bools4', 'methv', 'getattr'}
+                     'mhas', 'mget', 'shas', 'without_key', 're_compile_raises', 're_compile', 'as_map', 'as_seq', 'as_set', 'sat', 'slen', 'mlen', 'methraises', 'methcall', 'gen_of', 'nth_where', 'count_where', 'ghost', 'zlen', 'isfinite', 'ret_make_converter', 'ret_into_data', 'ret', 'clsref', 'id_of', 'fnref', 'called', 'hash_of', 'forall_bools4', 'methv', 'getattr', 'kept_seq'}
 
     # ------------------------------------------------------------------------------------
     def ev_Call(self, node, st):
@@ -50,6 +50,22 @@ class Calls:
             # spec quantifiers take lambdas unevaluated
             if isinstance(f, VBuiltin) and f.name in ('spec.forall', 'spec.exists', 'spec.forall_val', 'spec.exists_val'):
                 return self.spec_quant(f.name[5:], node, s)
+            if isinstance(f, VBuiltin) and f.name == 'spec.kept_seq':
+                # kept_seq("tuple"|"list", n, lambda i: keep, lambda i: elem): the value a filtered comprehension builds
+                target = node.args[0].value
+                nsv, _ = self.ev1(node.args[1], s)
+                n_ = self.toInt(nsv, s)
+                i_ = self.th.fresh('i', self.th.I)
+                outs_ = []
+                for lam in node.args[2:4]:
+                    env = dict(s.env)
+                    env[lam.args.args[0].arg] = VInt(i_)
+                    r_, s2_ = self.ev1(lam.body, State(env, [], []))
+                    outs_.append((r_, s2_))
+                keep_ = self.truth(outs_[0][0], outs_[0][1])
+                val_ = self.toVal(outs_[1][0], outs_[1][1])
+                g_ = VGen(n=n_, idx=i_, ok=z3.BoolVal(True), val=val_, excs=(), keep=keep_, facts=tuple(outs_[0][1].pc + outs_[1][1].pc))
+                return self.materialize(g_, target, s, node)
             if isinstance(f, VBuiltin) and f.name == 'spec.forall_bools4':
                 # finite quantifier: all 16 assignments of four booleans
                 lam = node.args[0]
@@ -731,7 +747,12 @@ class Calls:
                 if gg.keep is not None:
                     # filtered: element j of the result is the j-th KEPT source element (canonical enumeration)
                     cnt, pos, rank = self.kept_positions(lambda t, s_: self.gen_at(gg, gg.keep, t), gg.n, s)
-                    r = th.fresh('filtered_' + target)
+                    # canonical name: the same filter over the same element expression is the same value, so that a
+                    # specification can denote it (kept_seq(...)) without an existential
+                    import hashlib
+                    probe = z3.Int('$i')
+                    sig_ = str(z3.simplify(self.gen_at(gg, gg.keep, probe))) + '|' + str(z3.simplify(self.gen_at(gg, gg.val, probe))) + '|' + str(z3.simplify(gg.n))
+                    r = z3.Const('kept_' + target + '_' + hashlib.sha1(sig_.encode()).hexdigest()[:12], th.Val)
                     j = th.fresh('j', th.I)
                     s.add(th.vlen(r) == cnt, r != th.NoneV, th.isc(target)(r), th.truthy(r) == (cnt > 0),
                           z3.ForAll([j], z3.Implies(z3.And(j >= 0, j < cnt),
